@@ -197,6 +197,10 @@ func (w *world) list(r *http.Request) (*http.Response, error) {
 		return nil, errors.New("scripted: connection refused")
 	case "500":
 		return resp(500, nil, []byte("boom"), r), nil
+	case "503empty":
+		return resp(503, nil, nil, r), nil
+	case "401empty":
+		return resp(401, nil, nil, r), nil
 	case "garbage":
 		return resp(200, nil, []byte("{not json"), r), nil
 	case "huge":
